@@ -105,7 +105,17 @@ Definition mig_model (c : World.world * (str + (str * cfgdata)) * store * list b
                 dict(classes=[K(0, 'A', params=[P('x')]), K(1, 'B', group='g', meta_inputs=[{'cls': 0}])],
                      files={'multi.json': {'configs': {'small': {'tasks': ['@M.*'], 'x': 1}, 'big': {'tasks': ['@M.*'], 'x': 2}}},
                             'main.json': {'uses': ['multi.json#big as big', 'multi.json#small as small']}},
-                     base={'file': 'main.json'}, context=None, compute=[2, 3], drys=[False, False], verbose=False)]
+                     base={'file': 'main.json'}, context=None, compute=[2, 3], drys=[False, False], verbose=False),
+                # the same, each part computed on its own by the chain of that part before the pipeline over both is migrated
+                dict(classes=[K(0, 'A', params=[P('x')]), K(1, 'B', group='g', meta_inputs=[{'cls': 0}])],
+                     files={'multi.json': {'configs': {'small': {'tasks': ['@M.*'], 'x': 1}, 'big': {'tasks': ['@M.*'], 'x': 2}}},
+                            'main.json': {'uses': ['multi.json#small as small', 'multi.json#big as big']}},
+                     base={'file': 'main.json'}, context=None, compute=[], compute_parts=['multi.json#small', 'multi.json#big'],
+                     drys=[False, False], verbose=False),
+                dict(classes=[K(0, 'A', params=[P('x')]), K(1, 'B', group='g', meta_inputs=[{'cls': 0}])],
+                     files={'multi.json': {'configs': {'small': {'tasks': ['@M.*'], 'x': 1}, 'big': {'tasks': ['@M.*'], 'x': 2}}},
+                            'main.json': {'uses': ['multi.json#small as small', 'multi.json#big as big']}},
+                     base={'file': 'main.json'}, context=None, compute=[], compute_parts=['multi.json#big'], drys=[True, False], verbose=False)]
 
     def gen(self, rng, tier):
         from ..gen_pipeline import gen_case
@@ -133,6 +143,17 @@ Definition mig_model (c : World.world * (str + (str * cfgdata)) * store * list b
                 return dict(error='name-mode chain: ' + type(e).__name__)
             names = list(old.tasks)
             old_values = {}
+            # results computed earlier by the name-mode chains of single parts / files of the pipeline, each on its own
+            part_values = {}
+            for ref in case.get('compute_parts', []):
+                part_chain = Config(Path('data'), ref).chain(parameter_mode=False)
+                for n, t in part_chain.tasks.items():
+                    # (in these cases a part is mounted under the namespace that bears its name)
+                    part_values[f'{ref.split("#")[1]}::{n}'] = describe_value(t.value)
+            if case.get('compute_parts'):
+                for n, t in old.tasks.items():
+                    if t.has_data:
+                        old_values[n] = describe_value(t.value)
             for k in case['compute']:
                 if names:
                     n = names[k % len(names)]
@@ -184,7 +205,7 @@ Definition mig_model (c : World.world * (str + (str * cfgdata)) * store * list b
                                  new_path={n: str(t.data_path) for n, t in new.tasks.items()})
                 except CONSTRUCTION_ERRORS as e:
                     after = dict(error=type(e).__name__)
-            return dict(src0=src0, steps=steps, old_values=old_values, after=after, param_ok=param_ok)
+            return dict(src0=src0, steps=steps, old_values=old_values, after=after, param_ok=param_ok, part_values=part_values)
 
     def encode(self, case, obs):
         i = cpair(pl.cworld(case, 'M'), pl.cbase(case['base'], 'M'), cstore(obs.get('src0', [])),
@@ -228,6 +249,12 @@ Definition mig_model (c : World.world * (str + (str * cfgdata)) * store * list b
                 k3 = f'[source-dirs-created] migration {k} created directories in the source tree: {added[:4]}'
         a = obs.get('after') or {}
         if real_done and 'has' in a:
+            # results that the chains of single parts stored on their own: each is carried over under the namespace of its part
+            for n, v in (obs.get('part_values') or {}).items():
+                if not a['has'].get(n):
+                    return f'{n} had a stored result (computed by the chain of its part) and has none in the target after migration'
+                if json.dumps(a['values'].get(n), sort_keys=True) != json.dumps(v, sort_keys=True):
+                    return f'{n}: the migrated value {json.dumps(a["values"].get(n))[:120]} differs from the one its part stored {json.dumps(v)[:120]}'
             for n, h in a['has'].items():
                 if n not in a['old_has']:
                     continue
